@@ -8,10 +8,14 @@
  *     as v; with up=1 the signature's own publication data is supplied as the user publication (the one way a
  *     policy beyond the internal one can say OK without a network); additionally
  *      G<status>                     KSI_verifyDataHash(ctx, sig, doc) (general policy, level 0), "G-" without a document hash
+ *      B<status>                     KSI_Signature_verifyWithPolicy with the document hash and level only inside the caller's context
+ *      D<status>:<error code>        KSI_Signature_verifyDocument(sig, ctx, "", 0): a document of no octets (general policy)
  */
 #include "common.h"
 #include <ksi/ksi.h>
 #include <ksi/policy.h>
+#include <ksi/impl/ctx_impl.h>
+#include <ksi/impl/signature_impl.h>
 
 static KSI_CTX *ctx;
 
@@ -82,6 +86,22 @@ static void do_line(char *work, const char *orig) {
 		}
 		if (isw) {
 			if (doc != NULL) printf(" G%d", KSI_verifyDataHash(ctx, sig, doc)); else printf(" G-");
+			{	/* the document hash and level given only inside the caller's context */
+				KSI_VerificationContext vc;
+				KSI_VerificationContext_init(&vc, ctx);
+				vc.userPublication = pdata; vc.documentHash = doc; vc.docAggrLevel = level;
+				r = KSI_Signature_verifyWithPolicy(sig, NULL, 0, pol, &vc);
+				printf(" B%d", r);
+				vc.userPublication = NULL; vc.documentHash = NULL;
+				KSI_VerificationContext_clean(&vc);
+			}
+			{	/* the signature against a document of no octets at all: its hash is computed and compared like any other */
+				int er = 0;
+				r = KSI_Signature_verifyDocument(sig, ctx, "", 0);
+				if (ctx->lastFailedSignature != NULL && ctx->lastFailedSignature->policyVerificationResult != NULL)
+					er = (int)ctx->lastFailedSignature->policyVerificationResult->finalResult.errorCode;
+				printf(" D%d:%d", r, er);
+			}
 		}
 		KSI_DataHash_free(doc); KSI_Signature_free(sig); free(raw0); free(raw);
 	} else printf("BAD-OP");
